@@ -1293,6 +1293,42 @@ pub fn transcript(seed: u64) -> Vec<(String, String)> {
         let f = if ok { unsafe { std::slice::from_raw_parts(ob.ptr, ob.len) }.to_vec() } else { Vec::new() };
         t.push((format!("seeded_ext_keygen {} len={}", hex(&sd[..sd.len().min(8)]), sd.len()), format!("{} same_across_entry_points={} relations={:?}", hex(&p), p == w && w == f, identity_relations(&p, 4).is_ok())));
     }
+    // an export that fails half-way (the caller's writer reports an error, or accepts no more bytes) must not leak into the next
+    // one: each of the four byte-level generators is called with a failing writer, then again with a healthy one
+    {
+        use crate::io::{SimWriter, WritePlan};
+        let sd_a = b"first seed, export fails".to_vec();
+        let sd_b = b"second seed, export succeeds".to_vec();
+        let mut all_ok = true;
+        let mut detail = String::new();
+        for which in 0..4u8 {
+            for (fail_at, zero_at) in [(Some(0usize), None), (Some(40), None), (None, Some(33usize)), (Some(70), None)] {
+                let mut bad = SimWriter::new(WritePlan { chunk: 16, interrupts: vec![], fail_at, zero_at });
+                let r1 = match which {
+                    0 => rln.key_gen(&mut bad),
+                    1 => rln.extended_key_gen(&mut bad),
+                    2 => rln.seeded_key_gen(Cursor::new(sd_a.clone()), &mut bad),
+                    _ => rln.seeded_extended_key_gen(Cursor::new(sd_a.clone()), &mut bad),
+                };
+                let n = if which % 2 == 0 { 2 } else { 4 };
+                let _ = r1; // whether and how the failure is reported is not C14's business
+                let mut w = Vec::new();
+                let r2 = match which {
+                    0 => rln.key_gen(&mut w),
+                    1 => rln.extended_key_gen(&mut w),
+                    2 => rln.seeded_key_gen(Cursor::new(sd_b.clone()), &mut w),
+                    _ => rln.seeded_extended_key_gen(Cursor::new(sd_b.clone()), &mut w),
+                };
+                let want = if which >= 2 { Some(reference_seeded_identity(&sd_b, which == 3)) } else { None };
+                let good = r2.is_ok() && w.len() == 32 * n && identity_relations(&w, n).is_ok() && want.map(|x| x == w).unwrap_or(true);
+                if !good {
+                    all_ok = false;
+                    detail = format!("generator {which}: after a failed export the next one returned {} bytes (expected {}), relations {:?}", w.len(), 32 * n, identity_relations(&w, n).is_ok());
+                }
+            }
+        }
+        t.push(("seeded_keygen after_failed_export".into(), format!("same_across_entry_points={all_ok} relations={all_ok} {detail}")));
+    }
     // unseeded: relations and distinctness (values themselves are not part of the transcript)
     let mut ids: Vec<Vec<u8>> = Vec::new();
     for k in 0..6 {
